@@ -1,10 +1,10 @@
-\* intended design, 2 threads x 1 load and 2 threads x 2 loads, all graphs incl. fan-out, all modes
+\* intended design with direct typed entries (with_loading): 2 threads, graphs with the direct leaf 4, all modes
 CONSTANTS
   Threads <- T2
-  Keys <- K3
-  DirectKeys = {}
-  DepsOpts <- G_mc
-  LoadsOpts <- W_mc2
+  Keys <- K4
+  DirectKeys <- D4
+  DepsOpts <- DirectGraphs
+  LoadsOpts <- W_dir
   SharedOpts = {TRUE, FALSE}
   CacheOpts = {TRUE, FALSE}
   Dev = {}
